@@ -91,7 +91,8 @@ def write_shards(d, rows, per):
             "Eval vm_compute in (verdicts_from shard_base cases).\n"
             "Eval vm_compute in (hyp_stats cases).\n"
             "Eval vm_compute in (outside_stats cases).\n"
-            "Eval vm_compute in (sim_stats cases).\n")
+            "Eval vm_compute in (sim_stats cases).\n"
+            "Eval vm_compute in (simp_stats cases).\n")
     terms = []
     for i, r in enumerate(rows):
         t, errs = case_term(r)
@@ -118,7 +119,8 @@ def eval_dir(d, rows, per):
     res = vflib.run_shards(LAYER, d, "cases_mysql_*.v")
     mism, verdicts, errors = {}, {}, []
     stats = {"modify_actions": 0, "modify_under_hypothesis": 0, "modify_on_autoinc_column": 0, "outside_known_classes": 0, "outside_and_holding": 0,
-             "actions_in_judged_migrations": 0, "actions_under_a_proved_sim_lemma": 0, "judged_migrations": 0, "migrations_fully_under_sim_lemmas": 0}
+             "actions_in_judged_migrations": 0, "actions_under_a_proved_sim_lemma": 0, "judged_migrations": 0, "migrations_fully_under_sim_lemmas": 0,
+             "not_whole_by_Sim_plan": 0, "whole_by_SimP_plan_equiv": 0, "whole_by_SimP_plan_checked_only": 0}
     for f, rc, o, dt in res:
         if rc != 0:
             errors.append({"shard": os.path.basename(f), "log": o[-1500:]})
@@ -155,6 +157,12 @@ def eval_dir(d, rows, per):
                 stats["actions_under_a_proved_sim_lemma"] += c[1]
                 stats["judged_migrations"] += c[2]
                 stats["migrations_fully_under_sim_lemmas"] += c[3]
+        if len(blocks) >= 6:
+            c = vflib.parse_nat_list(blocks[5])
+            if len(c) == 3:
+                stats["not_whole_by_Sim_plan"] += c[0]
+                stats["whole_by_SimP_plan_equiv"] += c[1]
+                stats["whole_by_SimP_plan_checked_only"] += c[2]
     return mism, verdicts, errors, parse_errors, stats
 
 
